@@ -1,6 +1,7 @@
 """C11: rewriting is deterministic."""
 import json
 import os
+import random
 import subprocess
 import tempfile
 
@@ -85,6 +86,13 @@ def gen_case(rng, tier, index):
                     "align": rng.random() < 0.2}
         g.case["second_rewrite"] = rng.random() < 0.4
         g.case["imprecise_returns"] = rng.random() < 0.3
+        # retarget_symbol_uses requests, also chained (A->B and B->C): they
+        # are registered in a permuted order like the modifications
+        r2 = random.Random(f"retarget:{index}:{len(cases)}")
+        if len(g.callable_labels) >= 3 and r2.random() < 0.3:
+            a, b, c = r2.sample(sorted(g.callable_labels), 3)
+            g.case["retargets"] = [[a, b], [b, c]] if r2.random() < 0.7 \
+                else [[a, b], [c, b]]
         cases.append(g.case)
     return {"cases": cases, "tier": tier}
 
